@@ -274,7 +274,9 @@ func c19Run(s *Shard) {
 		{M{"alternative": "a", "coefficient": 1.0}, M{"alternative": "b", "coefficient": 1.0}, M{"alternative": "c", "coefficient": 1.0}},
 	}
 	lin := func(a, b float64) M { return M{"function": "linear", "params": M{"a": a, "b": b}} }
-	exp := func(al, mu float64) M { return M{"function": "expFromZero", "params": M{"alpha": al, "multiplier": mu}} }
+	exp := func(al, mu float64) M {
+		return M{"function": "expFromZero", "params": M{"alpha": al, "multiplier": mu}}
+	}
 	fns := [][2]M{{lin(0, 0), lin(0, 0)}, {lin(0.5, 0), lin(1, 0)}, {lin(0.5, 0.125), lin(1, 0.25)}, {exp(1, 0.5), exp(1, 1)}, {exp(0, 1), lin(2, 0)}}
 	appliers := []M{
 		{"function": "inline", "params": M{"applyOnNotConsidered": false}},
